@@ -41,6 +41,14 @@ def lexEngine (f : String) (args : List String) : String :=
          | .error c => "error " ++ c
          | .panic _ => "panic")
      | none => "bad-op")
+  | "literal", [s] =>
+    (match parseCps s with
+     | some cs => (match parseLiteral cs with
+        | some (.ok v, []) => "value " ++ showCps v
+        | some (.error c, []) => "error " ++ c
+        | some (.panic _, _) => "panic"
+        | _ => "noparse")
+     | none => "bad-op")
   | "intern", [s] =>
     (match parseCps s with
      | some cs => showSym (intern cs) ++ " " ++ showCps (resolve (intern cs))
